@@ -73,6 +73,7 @@ class Registry:
         self.fields = {}  # field name or (cls, field) -> Ty
         self.lemmas = []  # (name, props, fn() -> (hyps, goal))
         self.units = []  # contracts to verify, in registration order
+        self.facts = []  # (name, props, holds: bool, text): facts about the class table of the real source, one obligation each
         self.attr_fields = {}  # attribute written through an interface setter -> heap fields it stands for (loop havoc)
         self.module_state = {}  # (module dotted name, global variable) -> heap field on the world object (mutable module-level state)
         self.static_dispatch = set()  # classes whose non-overridden concrete methods are dispatched statically on interface refs
